@@ -1,10 +1,56 @@
-(* C01 — async execution returns what sequential evaluation would.  Proved so far: the value
-   delivered at a yield has the shape of the yielded structure with each future replaced by its
-   value (for every structure, any nesting).  The whole-program theorem (machine outcome = sequential
-   evaluation) is not yet proved; that part of C01 rests on the correspondence + monitors. *)
-From Asynq Require Import Prog proofs.ProgProofs.
+(* C01 — async execution returns exactly what sequential evaluation would.
+   Statements only; proofs in proofs/MachineC01.v and proofs/ProgProofs.v.
+
+   C01_async_eq_seq_tree is the whole-program theorem for yield-only TREE programs: every future is
+   created in the yield expression that awaits it (arbitrary nesting of tuples/lists/dicts, None,
+   non-future objects, constant / error / lazy futures, batch items of any kinds, child tasks to any
+   depth, try/except by way of the continuations, plain AsyncContexts and scoped overrides), for every
+   flush order (oracle), priority assignment, KEEP_DEPENDENCIES setting and fuel.  Hypotheses:
+   [pointwise] - no flush body raises half way (otherwise an item's answer depends on its position
+   in the batch and "sequential evaluation" is not defined); [no_unwind] - the runaway-recursion guard
+   did not fire.  Programs with stored handles (DAGs) and synchronous re-entry are NOT covered by this
+   theorem; for them C01 rests on the correspondence and the monitors (statement kept below). *)
+From Asynq Require Import Machine Seq proofs.ProgProofs proofs.MachineC08 proofs.MachineC01.
+
+Theorem C01_async_eq_seq_tree : forall P p n o,
+  pointwise P -> tree p ->
+  let h := fst (create [] (FTask p) (st0 P)) in
+  let s1 := snd (create [] (FTask p) (st0 P)) in
+  no_unwind P n (start h s1) -> c_mode (run P n (start h s1)) = MDone o -> o = eval p.
+Proof. exact async_eq_seq_tree. Qed.
+Print Assumptions C01_async_eq_seq_tree.
+
+Theorem C01_async_eq_seq_tree_after_history : forall P spec s p n o,
+  pointwise P -> tree p -> SInv spec None s ->
+  let h := fst (create [] (FTask p) s) in
+  let s1 := snd (create [] (FTask p) s) in
+  no_unwind P n (start h s1) -> c_mode (run P n (start h s1)) = MDone o -> o = eval p.
+Proof. exact async_eq_seq_tree_from. Qed.
+Print Assumptions C01_async_eq_seq_tree_after_history.
+
+(* every transition preserves "computed futures carry their sequential outcome, and every suspended
+   task's continuation evaluates to its sequential outcome" *)
+Theorem C01_spec_invariant_step : forall P, pointwise P -> forall root res spec c,
+  is_unwind (c_mode c) = false -> CInv root res spec c -> exists spec', CInv root res spec' (step P c).
+Proof. exact c01_step. Qed.
+Print Assumptions C01_spec_invariant_step.
 
 Theorem C01_yield_result_has_same_shape : forall (A : Type) (look : A -> outcome) (f : A -> val) (s : ystruct A),
   (forall a, In a (leaves s) -> look a = Ok (f a)) -> unwrap look s = Ok (fill f s).
 Proof. exact (fun A look f s => unwrap_ok_fill look f s). Qed.
 Print Assumptions C01_yield_result_has_same_shape.
+
+Theorem C01_hypotheses_satisfiable :
+  tree c01_demo /\
+  let P := mkP [] 1000 false [] in
+  let h := fst (create [] (FTask c01_demo) (st0 P)) in
+  let s1 := snd (create [] (FTask c01_demo) (st0 P)) in
+  no_unwind_b P 300 (start h s1) = true /\
+  c_mode (run P 300 (start h s1)) = MDone (Ok (VTuple [VInt 5; VList [VTuple [VInt 7; VInt 1]; VNone]; VInt 9])) /\
+  eval c01_demo = Ok (VTuple [VInt 5; VList [VTuple [VInt 7; VInt 1]; VNone]; VInt 9]).
+Proof. exact (conj c01_demo_tree c01_demo_runs). Qed.
+Print Assumptions C01_hypotheses_satisfiable.
+
+(* The general statement (any program, including stored handles / DAGs and synchronous re-entry) is
+   not proved: a sequential reference for those needs an environment of handles and, for HOAS bodies, a
+   parametricity-style well-formedness predicate; that part of C01 rests on the correspondence. *)
